@@ -241,7 +241,8 @@ def main():
                 "evidence_file": "/verif/evidence/%s.json" % pid,
                 "replay_cmd_template": "./check %s --replay {path}" % pid,
                 "engine": "lean-model+correspondence",
-                "level_claimed": {"category": c["cat"], "text": c["text"], "design_ref": c["ref"]},
+                "level_claimed": {"category": c["cat"], "text": c["text"] + " Directed input families added against six rounds of seeded breaking changes (220, all but one "
+                                  "neutralised change detected by the check of their property): DESIGN.md §13.7, §13.10, §13.11.", "design_ref": c["ref"] + ", §13"},
                 "level_note": c["note"],
                 "technique": c["tech"],
             })
